@@ -332,6 +332,7 @@ func (e *vf4Env) vf12Az(f []string) (string, error) {
 	req.AddCookie(&http.Cookie{Name: authCookieName, Value: cookie})
 	tauth := time.Now().Unix()
 	rr, p := vfServe(st.idpOpenIDCAuthorizationHandler, req)
+	tauth2 := time.Now().Unix()
 	if p != nil {
 		return "", fmt.Errorf("authorization handler panicked: %v", p)
 	}
@@ -370,7 +371,7 @@ func (e *vf4Env) vf12Az(f []string) (string, error) {
 	if err != nil {
 		return "", err
 	}
-	return fmt.Sprintf("az 302 code tauth=%d state=%s locbase=%s || %s", tauth, vfHex(loc.Query().Get("state")), vfHex(locBase), out), nil
+	return fmt.Sprintf("az 302 code tauth=%d tauth2=%d state=%s locbase=%s || %s", tauth, tauth2, vfHex(loc.Query().Get("state")), vfHex(locBase), out), nil
 }
 
 // ---------------------------------------------------------------- signer kinds and the published JWKS
@@ -588,6 +589,136 @@ func (e *vf4Env) vf12RawTokens(code string) (string, string, error) {
 	return resp.IDToken, resp.AccessToken, nil
 }
 
+// ---------------------------------------------------------------- loader-built deployment, delayed and repeated redemption
+
+var vf12LoaderEnvMemo *vf4Env
+
+// vf12LoaderEnv: the six clients WRITTEN into a configuration file, the state built by the real loader.
+func vf12LoaderEnv(t *testing.T, hand *vf4Env) (*vf4Env, error) {
+	if vf12LoaderEnvMemo != nil {
+		vf12LoaderEnvMemo.t = t
+		return vf12LoaderEnvMemo, nil
+	}
+	loader, err := vfConfigLoader(t)
+	if err != nil {
+		return nil, err
+	}
+	cl := func(id, secret string, aud bool) map[interface{}]interface{} {
+		m := map[interface{}]interface{}{"client_id": id, "allowed_redirect_domains": []interface{}{"localhost"}}
+		if secret != "" {
+			m["client_secret"] = secret
+		}
+		if aud {
+			m["allow_client_chose_audiences"] = true
+		}
+		return m
+	}
+	state, err := loader.load(map[string]interface{}{
+		"base.host_identity":                   "keymaster.example.com",
+		"base.http_address":                    ":443",
+		"base.allowed_auth_backends_for_webui": []interface{}{"password"},
+		"openid_connect_idp.clients": []interface{}{
+			cl(vf12S1, vf12S1Secret, false), cl(vf12S2, vf12S2Secret, false), cl(vf12P1, "", false), cl(vf12P2, "", false),
+			cl(vf12SA, vf12SASecret, true), cl(vf12PA, "", true)},
+	}, true)
+	if err != nil {
+		return nil, err
+	}
+	vf12LoaderEnvMemo = &vf4Env{t: t, state: state, frsa: hand.frsa, fixedKeys: true}
+	return vf12LoaderEnvMemo, nil
+}
+
+type vf12Pending struct {
+	env                  *vf4Env
+	where, client, aud   string
+	code, prot, verifier string
+	payload              []byte
+	tauth1, tauth2       int64
+}
+
+// vf12Slow: authorization and redemption are different moments. Eight flows (four clients, on the hand-built
+// and on the loader-built deployment) are authorized through the real endpoint, then — after <delay ms> —
+// each code is redeemed, and redeemed a second time.
+//
+//	slow <delay ms>
+//
+// output: `slow | <where> <client> aud=<hex|-> tauth1= tauth2= || <redeem 1> || <redeem 2> ;; …`
+func vf12Slow(f []string, hand, loaded *vf4Env) string {
+	var delay int64
+	fmt.Sscan(f[1], &delay)
+	var pend []vf12Pending
+	for _, w := range []struct {
+		name string
+		env  *vf4Env
+	}{{"hand", hand}, {"loader", loaded}} {
+		for _, c := range []struct {
+			client, aud string
+			pkce        bool
+		}{{vf12S1, "", false}, {vf12SA, "https://api.localhost", false}, {vf12P1, "", true}, {vf12PA, "https://api.localhost", true}} {
+			st := w.env.state
+			form := url.Values{}
+			form.Set("response_type", "code")
+			form.Set("client_id", c.client)
+			form.Set("redirect_uri", vf12Redirect)
+			form.Set("scope", "openid")
+			form.Set("nonce", vf12Nonce)
+			if c.aud != "" {
+				form.Set("audience", c.aud)
+			}
+			p := vf12Pending{env: w.env, where: w.name, client: c.client, aud: c.aud, prot: "-"}
+			if c.pkce {
+				form.Set("code_challenge", vf12S256(vf12Verifier))
+				form.Set("code_challenge_method", "S256")
+				p.verifier, p.prot = vf12Verifier, vfHex("S256")+":"+vfHex(vf12S256(vf12Verifier))
+			}
+			cookie, err := st.genNewSerializedAuthJWT(vf12User, AuthTypePassword, maxAgeSecondsAuthCookie)
+			if err != nil {
+				return "harness-error " + err.Error()
+			}
+			req := httptest.NewRequest("GET", idpOpenIDCAuthorizationPath+"?"+form.Encode(), nil)
+			req.AddCookie(&http.Cookie{Name: authCookieName, Value: cookie})
+			p.tauth1 = time.Now().Unix()
+			rr, pn := vfServe(st.idpOpenIDCAuthorizationHandler, req)
+			p.tauth2 = time.Now().Unix()
+			if pn != nil || rr.Code != 302 {
+				return fmt.Sprintf("harness-error authorization of %s on %s: status %d panic %v", c.client, w.name, rr.Code, pn)
+			}
+			loc, err := url.Parse(rr.Header().Get("Location"))
+			if err != nil {
+				return "harness-error " + err.Error()
+			}
+			p.code = loc.Query().Get("code")
+			p.payload, _ = vf4Payload(p.code)
+			pend = append(pend, p)
+		}
+	}
+	time.Sleep(time.Duration(delay) * time.Millisecond)
+	var outs []string
+	for _, p := range pend {
+		secret, place := vf12Secret(p.client), "header"
+		if secret == "" {
+			place = "form"
+		}
+		var parts []string
+		for i := 0; i < 2; i++ {
+			out, err := p.env.vf12Redeem(p.code, p.payload, "1", p.prot, p.client, secret, p.verifier, vf12Redirect, place)
+			if err != nil {
+				return "harness-error " + strings.Join(strings.Fields(err.Error()), "_")
+			}
+			parts = append(parts, out)
+			if i == 0 {
+				time.Sleep(1100 * time.Millisecond / time.Duration(len(pend))) // the second redemption is later still
+			}
+		}
+		aud := "-"
+		if p.aud != "" {
+			aud = vfHex(p.aud)
+		}
+		outs = append(outs, fmt.Sprintf("%s %s aud=%s tauth1=%d tauth2=%d || %s", p.where, p.client, aud, p.tauth1, p.tauth2, strings.Join(parts, " || ")))
+	}
+	return "slow | " + strings.Join(outs, " ;; ")
+}
+
 // TestVerifC12
 //
 //	tok <codeClient> <present> <secret> <verifier> <method> <redirect> <codeState> <place> <via>
@@ -619,8 +750,28 @@ func TestVerifC12(t *testing.T) {
 			}
 			continue
 		}
+		cur := e
+		if len(f) > 0 && (f[0] == "ltok" || f[0] == "laz") {
+			// the same op on a deployment built by the real configuration loader (clients written in the file)
+			le, err := vf12LoaderEnv(t, e)
+			if err != nil {
+				io.emit("harness-error loader %s", strings.Join(strings.Fields(err.Error()), "_"))
+				continue
+			}
+			cur = le
+			f[0] = f[0][1:]
+		}
+		if len(f) == 2 && f[0] == "slow" {
+			le, err := vf12LoaderEnv(t, e)
+			if err != nil {
+				io.emit("harness-error loader %s", strings.Join(strings.Fields(err.Error()), "_"))
+				continue
+			}
+			io.emit("%s", vf12Slow(f, e, le))
+			continue
+		}
 		if len(f) == 9 && f[0] == "az" {
-			out, err := e.vf12Az(f)
+			out, err := cur.vf12Az(f)
 			if err != nil {
 				io.emit("harness-error %v", err)
 			} else {
@@ -667,9 +818,9 @@ func TestVerifC12(t *testing.T) {
 			if !sealed {
 				ch = ""
 			}
-			code, err = e.vf12AuthzCode(codeClient, sealMethod, ch)
+			code, err = cur.vf12AuthzCode(codeClient, sealMethod, ch)
 		} else {
-			code, err = e.vf12MintCode(codeClient, sealMethod, challenge, sealed, exp, kind)
+			code, err = cur.vf12MintCode(codeClient, sealMethod, challenge, sealed, exp, kind)
 		}
 		if err != nil {
 			io.emit("harness-error %v", err)
@@ -686,7 +837,7 @@ func TestVerifC12(t *testing.T) {
 			payload = []byte(mutated)
 			by = "-"
 		case "foreign":
-			if code, err = vf4JoseSign(e.frsa, jose.RS256, payload, false); err != nil {
+			if code, err = vf4JoseSign(cur.frsa, jose.RS256, payload, false); err != nil {
 				io.emit("harness-error %v", err)
 				continue
 			}
@@ -726,7 +877,7 @@ func TestVerifC12(t *testing.T) {
 		if redirSel == "diff" {
 			redirect = "https://evil.localhost/cb"
 		}
-		out, err := e.vf12Redeem(code, payload, by, prot, client, secret, verifier, redirect, place)
+		out, err := cur.vf12Redeem(code, payload, by, prot, client, secret, verifier, redirect, place)
 		if err != nil {
 			io.emit("harness-error %v", err)
 			continue
